@@ -37,10 +37,10 @@ def run(c):
     binary = c.go_build(HARNESS)
     try:
         if binary and drv:
-            rc, out = c.go_run(binary, [f"-n={c.n(250, 6000)}"], timeout=2400)
+            rc, out = c.go_run(binary, [f"-n={c.n(400, 8000)}"], timeout=2400)
             c.harness_ok(rc, out, "verif-c17 (step mode)")
             c.correspond(out, drv, label="")
-            rc, out = c.go_run(binary, ["-mode=crash", f"-n={c.n(5, 60)}"], timeout=2400)
+            rc, out = c.go_run(binary, ["-mode=crash", f"-n={c.n(8, 100)}"], timeout=2400)
             c.harness_ok(rc, out, "verif-c17 (kill mode)")
             c.correspond(out, drv, label="crash")
     finally:
@@ -78,9 +78,12 @@ META = {
              "Engine (real SQLite, real savepoints/commits, in-process crash images) and on the compiled model and diffing committed state, "
              "transaction state, offsets, wait queue and acknowledgements after every op; the property itself is evaluated directly on the "
              "real engine in both modes (oracle signatures db-not-prefix, db-ahead-of-binlog, tx-not-prefix, acked-not-durable, acked-lost, "
-             "failed-do-left-db-change, failed-do-left-binlog-record, restart-missing-events, view-not-prefix, restart-not-writable)."),
+             "failed-do-left-db-change, failed-do-left-binlog-record, restart-missing-events, view-not-prefix, restart-not-writable, "
+             "restart-failed, restart-failed-torn-tail). Defect found and fixed (fixes/C17-binlog-torn-tail.diff): a kill inside a large "
+             "binlog write(2) left a partial record at the end of the file and fsbinlog's writer then refused to reopen it, so the engine "
+             "stayed down; the model keeps the old behaviour as `stepOld` with a `decide` witness."),
     "note": ("Partial: SQLite durability/atomic commit, fsync, the Go scheduler and fsbinlog's fsync-before-Commit contract are trusted, not proved; "
-             "kill instants are sampled (quick 10-15 kills, thorough ~150). The apply() branch that skips bytes below the stored offset is not "
+             "kill instants are sampled (quick ~20 kills, thorough ~250). The apply() branch that skips bytes below the stored offset is not "
              "modelled: the proved invariant tx.off <= dbOffset (also observed on the real engine after every op) makes its guard false. "
              "Snapshot meta and the ReadAndExit/CommitOnEachWrite/NoBinlog options are not modelled."),
     "design_ref": "DESIGN.md §6 C17",
